@@ -111,17 +111,31 @@ def unit_result(unit, tier='quick', seed=0, probe=False, known_strict=()):
     only_known = (not cl['failed_lemmas'] and not cl['body_fail'] and not cl['rlimit'] and not cl['infra']
                   and cl['failed_clauses'] and all(k in known_strict for k in cl['failed_clauses']))
     if bad(cl) and not cl['compile_errors'] and not only_known:
-        first = cl
-        for (rl, sd) in ((160, None), (160, 7 + seed), (160, 1013 + seed)):
-            res2 = run_verus(path, rlimit=rl, seed=sd)
-            cl2 = classify(meta, res2, path)
-            attempts.append(dict(rlimit=rl, seed=sd, wall=res2['wall']))
+        # functions to re-check: those owning a failed clause / body obligation, and failed lemmas
+        fns = set(cl['body_fail'].keys()) | set(cl['failed_lemmas'].keys())
+        for c in meta['clauses']:
+            if c['name'] in cl['failed_clauses']: fns.add(c['fn'])
+        targeted = bool(fns) and not cl['rlimit'] and not cl['infra']
+        for (rl, sd) in ((160, None), (160, 7 + seed)):
+            runs = []
+            if targeted:
+                for fn in sorted(fns):
+                    r2 = run_verus(path, rlimit=rl, seed=sd, extra=['--verify-root', '--verify-function', fn])
+                    if r2['out'] is None or any('could not find function' in d.get('message', '') or 'more than one match' in d.get('message', '') for d in r2['diags']):
+                        runs = None; break
+                    runs.append(r2)
+            if not runs:
+                runs = [run_verus(path, rlimit=rl, seed=sd)]
+            cl2 = dict(failed_clauses={}, failed_lemmas={}, body_fail={}, infra=[], rlimit=[], compile_errors=[])
+            for r2 in runs:
+                c2 = classify(meta, r2, path)
+                for k in ('failed_clauses', 'failed_lemmas', 'body_fail'): cl2[k].update(c2[k])
+                for k in ('infra', 'rlimit', 'compile_errors'): cl2[k] += c2[k]
+                attempts.append(dict(rlimit=rl, seed=sd, wall=r2['wall'], targeted=targeted))
             # an obligation discharged in any run counts as discharged
             for k in ('failed_clauses', 'failed_lemmas', 'body_fail'):
                 for nm in list(cl[k]):
                     if nm not in cl2[k] and not cl2['compile_errors'] and not any(nm in str(x) for x in cl2['rlimit']):
-                        # discharged under this configuration -- but only trust if that run did not
-                        # time out on the same function
                         unstable.append(nm); del cl[k][nm]
             if not cl2['rlimit']: cl['rlimit'] = []
             cl['infra'] = cl2['infra']
